@@ -10,6 +10,8 @@
 -/
 import Rdm.Lemmas.BiasBAnchor
 import Rdm.Lemmas.BiasBAnchorRat
+import Rdm.Lemmas.BiasBAnchorTie
+import Rdm.Lemmas.BiasBAnchorFrame
 import Rdm.Spec.C19
 import Mathlib.Tactic.NormNum
 namespace Rdm.Props.C19
@@ -141,6 +143,44 @@ theorem nadir_reference_value_maximises_weighted_value_on_cost {name : String} {
   · exact hk0
   · exact candidates_coefficients_positive hpos x hx
 
+/-- Tie rule of the reference point (positive coefficients): among anchoring alternatives with the **same
+    coefficient-weighted score** (`v·κ` for gain, `v/κ` for cost) the raw value decides — `ideal` takes the
+    better raw value (larger for gain, smaller for cost), `nadir` the worse one.  (`isBetter` compares the raw
+    values when the weighted scores are equal; `nadir` replaces only on a strict improvement.) -/
+theorem reference_value_ties_are_decided_by_the_raw_value {name : String} {a0 : Alt Rat} {k0 : Rat}
+    {rest : List (Alt Rat × Rat)} {crits : List (Crit Rat)} (hnd : (crits.map (·.id)).Nodup)
+    {c : Crit Rat} (hc : c ∈ crits) {v0 : Rat} (hv0 : a0.vals.get? c.id = some v0)
+    (hk0 : 0 < k0) (hpos : ∀ a ∈ rest, 0 < a.2) :
+    (∀ {r : Alt Rat}, findBest idealPred name ((a0, k0) :: rest) crits = .ok r →
+      ∃ w ∈ (v0, k0) :: candidatesOf c rest, r.vals.get? c.id = some w.1 ∧
+        (c.isGain = true → ∀ x ∈ (v0, k0) :: candidatesOf c rest, x.1 * x.2 = w.1 * w.2 → x.1 ≤ w.1) ∧
+        (c.isGain = false → ∀ x ∈ (v0, k0) :: candidatesOf c rest, x.1 / x.2 = w.1 / w.2 → w.1 ≤ x.1)) ∧
+    (∀ {r : Alt Rat}, findBest nadirPred name ((a0, k0) :: rest) crits = .ok r →
+      ∃ w ∈ (v0, k0) :: candidatesOf c rest, r.vals.get? c.id = some w.1 ∧
+        (c.isGain = true → ∀ x ∈ (v0, k0) :: candidatesOf c rest, x.1 * x.2 = w.1 * w.2 → w.1 ≤ x.1) ∧
+        (c.isGain = false → ∀ x ∈ (v0, k0) :: candidatesOf c rest, x.1 / x.2 = w.1 / w.2 → x.1 ≤ w.1)) := by
+  have hposc : ∀ x ∈ (v0, k0) :: candidatesOf c rest, 0 < x.2 := by
+    intro x hx
+    simp only [List.mem_cons] at hx
+    rcases hx with rfl | hx
+    · exact hk0
+    · exact candidates_coefficients_positive hpos x hx
+  constructor
+  · intro r h
+    refine ⟨bestFold idealPred c (v0, k0) (candidatesOf c rest), bestFold_mem _ _ _ _, (findBest_get h hnd hc hv0).2, ?_, ?_⟩
+    · intro hg x hx he
+      exact lexLe_tie (bestFold_ideal_gain_lex c hg _ _ hposc x hx) he
+    · intro hg x hx he
+      have := lexLe_tie (bestFold_ideal_cost_lex c hg _ _ hposc x hx) (by show -_ = -_; rw [he])
+      simpa using this
+  · intro r h
+    refine ⟨bestFold nadirPred c (v0, k0) (candidatesOf c rest), bestFold_mem _ _ _ _, (findBest_get h hnd hc hv0).2, ?_, ?_⟩
+    · intro hg x hx he
+      have := lexLe_tie (bestFold_nadir_gain_lex c hg _ _ hposc x hx) (by show -_ = -_; rw [he])
+      simpa using this
+    · intro hg x hx he
+      exact lexLe_tie (bestFold_nadir_cost_lex c hg _ _ hposc x hx) he
+
 /-! ### mapped difference -/
 
 /-- The split is exactly at 0: a positive scaled difference goes through the gain function, everything
@@ -223,6 +263,126 @@ theorem new_criterion_applier_adds_one_criterion_per_reference_point {α : Type}
     simp [e] at this
   · exact ncNewCriterion_reuses h
 
+/-- The id of an anchoring criterion is never in use, whatever criteria exist (earlier anchoring criteria of
+    the same or of a similarly named reference point, gaps left by omitted ones, foreign ids with the prefix):
+    `NotUsedName` counts on until the candidate is free.  So `Criteria.Add` accepts the new criterion —
+    creating the criterion of a reference point never fails because of its name. -/
+theorem anchoring_criterion_name_never_collides {α : Type} [Num α] (crits : List (Crit α)) (rp : String) :
+    notUsedName (crits.map (·.id)) ("__anchoring_criterion_" ++ rp) ∉ crits.map (·.id) ∧
+    (notUsedName (crits.map (·.id)) ("__anchoring_criterion_" ++ rp)).startsWith ("__anchoring_criterion_" ++ rp) = true ∧
+    ∀ c : Crit α, c.id = notUsedName (crits.map (·.id)) ("__anchoring_criterion_" ++ rp) →
+      critsAdd crits c = .ok (crits ++ [c]) := by
+  have hfresh := notUsedName_fresh (crits.map (·.id)) ("__anchoring_criterion_" ++ rp)
+  refine ⟨hfresh, notUsedName_prefixed _ _, ?_⟩
+  intro c hc
+  unfold critsAdd
+  rw [if_neg]
+  · rfl
+  · simp only [List.any_eq_true, beq_iff_eq, not_exists, not_and]
+    intro x hx e
+    exact hfresh ((e.trans hc) ▸ List.mem_map_of_mem hx)
+
+/-- two reference points called `ideal1` and `ideal`: the second one's first candidate `…ideal1` is taken,
+    it gets `…ideal2` (before the fix of `NotUsedName` this collided) -/
+example : notUsedName ["c0", "__anchoring_criterion_ideal1"] "__anchoring_criterion_ideal" = "__anchoring_criterion_ideal2" := by
+  have h : ((["c0", "__anchoring_criterion_ideal1"]).filter fun i => i.startsWith "__anchoring_criterion_ideal")
+      = ["__anchoring_criterion_ideal" ++ "1"] := by simp
+  rw [notUsedName_skips_used_name h]; rfl
+
+/-- Frame of the whole newCriterion applier.  A successful run reports the reference criterion (one of the
+    ranked criteria) and the added criteria, and
+    * the criteria are the old ones followed by the added ones, which carry the reference criterion's type and
+      declared range; the added ids are pairwise different and none is the id of an old criterion;
+    * there are as many added criteria as the longest list of reference points of the differences (at least
+      the number of reference points of each alternative, at most any common bound);
+    * the considered / not-considered split is unchanged;
+    * every resulting alternative is the alternative of one entry of the differences with its old values
+      untouched and one value appended per reference point, under the ids of the added criteria, in order. -/
+theorem new_criterion_applier_appends_the_added_criteria_and_keeps_old_values {α : Type} [Num α] {eps : α}
+    {d : DMP α} {diffs : List (AltDiffs α)} {b : Bounding α} {sc : KMap (Scale α)} {params : Props α}
+    {rd : Draws α} {gens : List (Draws α)} {res : DMP α} {r : ApplierResult α}
+    (h : newCriterionApply eps d diffs b sc params rd gens = .ok (res, r)) :
+    ∃ (ref : Crit α) (added : List (AddedAnch α)), r = .newCriterion ref added ∧
+      (∃ ranked, rankAsc eps d = .ok ranked ∧ ref ∈ ranked.map (·.crit)) ∧
+      res.crit = d.crit ++ added.map (fun a => { id := a.id, type := ref.type, range := ref.range }) ∧
+      (added.map (·.id)).Nodup ∧ (∀ a ∈ added, a.id ∉ d.crit.map (·.id)) ∧ (∀ a ∈ added, a.type = ref.type) ∧
+      (∀ p ∈ diffs, p.2.length ≤ added.length) ∧
+      (∀ n, (∀ p ∈ diffs, p.2.length ≤ n) → added.length ≤ n) ∧
+      res.co.map (·.id) = d.co.map (·.id) ∧ res.nc.map (·.id) = d.nc.map (·.id) ∧
+      ∀ a' ∈ res.co ++ res.nc, ∃ p ∈ diffs, a'.id = p.1.id ∧
+        ∃ news : KMap α, a'.vals = p.1.vals ++ news ∧ news.map (·.1) = (added.map (·.id)).take p.2.length :=
+  newCriterionApply_ok h
+
+/-- … in particular, with `n` reference points for every alternative (what `calculateDiffsPerReferencePoint`
+    produces) and at least one alternative: exactly `n` criteria are added — one per reference point — and
+    every alternative gets exactly the added ids appended, in order. -/
+theorem new_criterion_applier_adds_exactly_one_criterion_per_reference_point {α : Type} [Num α] {eps : α}
+    {d : DMP α} {diffs : List (AltDiffs α)} {b : Bounding α} {sc : KMap (Scale α)} {params : Props α}
+    {rd : Draws α} {gens : List (Draws α)} {res : DMP α} {ref : Crit α} {added : List (AddedAnch α)} {n : Nat}
+    (h : newCriterionApply eps d diffs b sc params rd gens = .ok (res, .newCriterion ref added))
+    (hn : ∀ p ∈ diffs, p.2.length = n) (hne : diffs ≠ []) :
+    added.length = n ∧ res.crit.length = d.crit.length + n ∧
+    ∀ a' ∈ res.co ++ res.nc, ∃ p ∈ diffs, a'.id = p.1.id ∧
+      ∃ news : KMap α, a'.vals = p.1.vals ++ news ∧ news.map (·.1) = added.map (·.id) := by
+  obtain ⟨ref', added', hr, _, hcr, _, _, _, hlo, hhi, _, _, hal⟩ := newCriterionApply_ok h
+  simp only [ApplierResult.newCriterion.injEq] at hr
+  obtain ⟨rfl, rfl⟩ := hr
+  have hlen : added.length = n := by
+    obtain ⟨p, hp⟩ := List.exists_mem_of_ne_nil diffs hne
+    have h1 := hlo p hp
+    have h2 := hhi n (fun q hq => Nat.le_of_eq (hn q hq))
+    rw [hn p hp] at h1
+    omega
+  refine ⟨hlen, by simp [hcr, hlen], ?_⟩
+  intro a' ha'
+  obtain ⟨p, hp, e1, news, e2, e3⟩ := hal a' ha'
+  refine ⟨p, hp, e1, news, e2, ?_⟩
+  rw [e3, hn p hp, ← hlen, ← List.length_map (f := fun x : AddedAnch α => x.id), List.take_length]
+
+/-- Whole `Anchoring.Apply` with the `newCriterion` applier (at least one known alternative): one criterion
+    is added per reference point, the criteria are the current ones followed by the added ones, the split is
+    unchanged, and every resulting alternative is a **current** alternative with all its values untouched and
+    exactly the values of the added criteria appended. -/
+theorem anchoring_with_the_new_criterion_applier_keeps_every_old_value {α : Type} [Num α] {exp : α → α} {eps : α}
+    {cur : DMP α} {p : AnchProps α} {rd : Draws α} {gens : List (Draws α)} {res : DMP α} {rep : AnchReport α}
+    (h : anchoringApply exp eps cur p rd gens = .ok (res, rep)) (hfn : p.applier.fn = "newCriterion")
+    (hne : cur.co ++ cur.nc ≠ []) :
+    ∃ (ref : Crit α) (added : List (AddedAnch α)), rep.applier = .newCriterion ref added ∧
+      added.length = rep.refPoints.length ∧
+      res.crit = cur.crit ++ added.map (fun a => { id := a.id, type := ref.type, range := ref.range }) ∧
+      (added.map (·.id)).Nodup ∧ (∀ a ∈ added, a.id ∉ cur.crit.map (·.id)) ∧
+      res.co.map (·.id) = cur.co.map (·.id) ∧ res.nc.map (·.id) = cur.nc.map (·.id) ∧
+      ∀ a' ∈ res.co ++ res.nc, ∃ a ∈ cur.co ++ cur.nc, a'.id = a.id ∧
+        ∃ news : KMap α, a'.vals = a.vals ++ news ∧ news.map (·.1) = added.map (·.id) := by
+  unfold anchoringApply at h
+  obtain ⟨⟨refs, sc, diffs, b⟩, hfront, h⟩ := bind_eq_ok.mp h
+  simp only [Option.getD_none] at h
+  obtain ⟨⟨d, r⟩, happ, h⟩ := bind_eq_ok.mp h
+  simp only [pure, Except.pure, Except.ok.injEq, Prod.mk.injEq] at h
+  obtain ⟨rfl, rfl⟩ := h
+  unfold applierApply at happ
+  have h1 : (p.applier.fn == Facts.anchoringInline) = false := by rw [hfn]; decide
+  have h2 : (p.applier.fn == Facts.anchoringNewCriterion) = true := by rw [hfn]; decide
+  simp only [h1, h2, Bool.false_eq_true, if_false, if_true] at happ
+  obtain ⟨hlen, hshape⟩ := anchoringFront_diffs hfront
+  obtain ⟨ref, added, hr, _, hcr, hnd, hfr, _, hlo, hhi, hco, hnc, hal⟩ := newCriterionApply_ok happ
+  have hdne : diffs ≠ [] := by
+    intro e
+    rw [e] at hlen
+    simp only [List.length_nil, DMP.all] at hlen
+    exact hne (List.eq_nil_of_length_eq_zero hlen.symm)
+  have hadd : added.length = refs.length := by
+    obtain ⟨q, hq⟩ := List.exists_mem_of_ne_nil diffs hdne
+    have e1 := hlo q hq
+    have e2 := hhi refs.length (fun q' hq' => Nat.le_of_eq (hshape q' hq').2)
+    rw [(hshape q hq).2] at e1
+    omega
+  refine ⟨ref, added, hr, hadd, hcr, hnd, hfr, hco, hnc, ?_⟩
+  intro a' ha'
+  obtain ⟨q, hq, e1, news, e2, e3⟩ := hal a' ha'
+  refine ⟨q.1, by simpa [DMP.all] using (hshape q hq).1, e1, news, e2, ?_⟩
+  rw [e3, (hshape q hq).2, ← hadd, ← List.length_map (f := fun x : AddedAnch α => x.id), List.take_length]
+
 /-- The importance weights used by the newCriterion applier (ascending ranking, shifted so that the
     smallest is at least the minimum allowed weight, divided by the total) are positive and sum to 1;
     the criteria and their order are unchanged. -/
@@ -264,5 +424,12 @@ theorem no_anchoring_alternatives_is_rejected {α : Type} [Num α] (p : AnchProp
     ∃ e, anchoringAlternatives p = .error e := by
   unfold anchoringAlternatives
   simp [hp, throw, throwThe, MonadExceptOf.throw]
+
+/-- the constants and names this property's models depend on were re-read from the working tree on this run
+    (none fell back to its pinned value because its declaration could not be located) -/
+theorem facts_fresh : (Rdm.Facts.staleFacts.all fun n => !["anchoringIdeal", "anchoringNadir", "anchoringInline",
+    "anchoringNewCriterion", "fatigueExp", "minAllowedWeight", "defaultBoundingScaling", "refImportanceRatio",
+    "refRandomUniform", "refRandomWeighted", "wiringRefCriterionFactories", "choquetEps", "roundPrecision"].contains n) = true := by
+  decide
 
 end Rdm.Props.C19
